@@ -53,7 +53,8 @@ pub fn gen_call(
                     &Expected::from(right),
                     env,
                 );
-                generate(right, &env_assigned_to, ctx, constr)?;
+                // the value is computed before the target is assigned
+                generate(right, env, ctx, constr)?;
                 generate(left, &env_assigned_to, ctx, constr)?;
                 Ok(env_assigned_to)
             } else {
